@@ -78,6 +78,9 @@ func (e *specEnv) resolveType(src string) types.Type {
 	if pk == nil {
 		e.fail("cannot resolve type %q: package %s not loaded", src, e.pkgPath)
 	}
+	if t := e.resolveGeneric(pk, src); t != nil {
+		return t
+	}
 	tv, err := types.Eval(e.x.p.Fset, pk, token.NoPos, src)
 	if err == nil && tv.IsType() {
 		return tv.Type
@@ -93,6 +96,92 @@ func (e *specEnv) resolveType(src string) types.Type {
 	}
 	e.fail("cannot resolve type %q: %v", src, err)
 	return nil
+}
+
+// importedObject resolves pkgname.Name through the imports of the files of the contract's package.
+func (e *specEnv) importedObject(pkgName, name string) types.Object {
+	lp := e.x.p.Pkgs[e.pkgPath]
+	if lp == nil {
+		return nil
+	}
+	if lp.Types.Scope().Lookup(pkgName) != nil {
+		return nil // a package-level object shadows nothing here: it is not an import
+	}
+	for _, f := range lp.Syntax {
+		sc := lp.TypesInfo.Scopes[f]
+		if sc == nil {
+			continue
+		}
+		if pn, ok := sc.Lookup(pkgName).(*types.PkgName); ok {
+			return pn.Imported().Scope().Lookup(name)
+		}
+	}
+	return nil
+}
+
+// resolveGeneric resolves `*Name` / `[]Name` / `Name` where Name is a generic type of the package written without
+// type arguments: it is instantiated with the type parameters of the function under verification (the receiver's
+// type arguments for a method, the function's own type parameters otherwise).
+func (e *specEnv) resolveGeneric(pk *types.Package, src string) types.Type {
+	rest := strings.TrimSpace(src)
+	var wraps []string
+	for {
+		if strings.HasPrefix(rest, "*") {
+			wraps = append(wraps, "*")
+			rest = rest[1:]
+		} else if strings.HasPrefix(rest, "[]") {
+			wraps = append(wraps, "[]")
+			rest = rest[2:]
+		} else {
+			break
+		}
+	}
+	if rest == "" || strings.ContainsAny(rest, "[]. (){}") {
+		return nil
+	}
+	tn, ok := pk.Scope().Lookup(rest).(*types.TypeName)
+	if !ok {
+		return nil
+	}
+	named, ok := tn.Type().(*types.Named)
+	if !ok || named.TypeParams().Len() == 0 {
+		return nil
+	}
+	var targs []types.Type
+	if e.x.fi != nil && e.x.fi.Sig != nil {
+		if r := e.x.fi.Sig.Recv(); r != nil {
+			rt := r.Type()
+			if pt, ok := rt.(*types.Pointer); ok {
+				rt = pt.Elem()
+			}
+			if rn, ok := rt.(*types.Named); ok {
+				for i := 0; i < rn.TypeArgs().Len(); i++ {
+					targs = append(targs, rn.TypeArgs().At(i))
+				}
+			}
+		}
+		if len(targs) == 0 {
+			for i := 0; i < e.x.fi.Sig.TypeParams().Len(); i++ {
+				targs = append(targs, e.x.fi.Sig.TypeParams().At(i))
+			}
+		}
+	}
+	if len(targs) != named.TypeParams().Len() {
+		return nil
+	}
+	inst, err := types.Instantiate(nil, named, targs, false)
+	if err != nil {
+		return nil
+	}
+	var t types.Type = inst
+	for i := len(wraps) - 1; i >= 0; i-- {
+		if wraps[i] == "*" {
+			t = types.NewPointer(t)
+		} else {
+			t = types.NewSlice(t)
+		}
+	}
+	return t
 }
 
 func (e *specEnv) evalBool(ex SExpr) *Term {
@@ -190,6 +279,19 @@ func (e *specEnv) ev(ex SExpr) Value {
 		}
 		return x.h.iteValue(cnd, a, b)
 	case SSel:
+		// pkg.Name: a package-level variable or constant of an imported package
+		if id, ok := ex.X.(SIdent); ok {
+			if _, isVar := e.vars[id.Name]; !isVar {
+				if o := e.importedObject(id.Name, ex.Name); o != nil {
+					switch o := o.(type) {
+					case *types.Var:
+						return x.loadLoc(e.s, x.globalLoc(o))
+					case *types.Const:
+						return x.constValue(e.s, o.Type(), o.Val())
+					}
+				}
+			}
+		}
 		base := e.ev(ex.X)
 		return e.selectField(base, ex.Name)
 	case SIndex:
@@ -610,6 +712,10 @@ func (e *specEnv) call(ex SCall) Value {
 	case "held":
 		// held(p.mu) / held(ptr): the ghost lock bit of the mutex at that address
 		return Value{T: boolT, Term: e.lockHeld(ex.Args[0])}
+	case "done":
+		// done(p.once): the ghost bit of a sync.Once field
+		a := e.muAddrOf(ex.Args[0])
+		return Value{T: boolT, Term: c.Read(x.h.region(e.s, onceRegionName, 1, SBool), a, nil)}
 	case "addr":
 		// addr(p.mu): the *sync.Mutex value &p.mu
 		return Value{T: types.NewPointer(e.resolveType("sync.Mutex")), Term: e.muAddrOf(ex.Args[0])}
@@ -682,7 +788,7 @@ func (e *specEnv) muAddrOf(ex SExpr) *Term {
 
 func isMutexType(t types.Type) bool {
 	s := typeStr(t)
-	return s == "sync.Mutex" || s == "sync.RWMutex"
+	return s == "sync.Mutex" || s == "sync.RWMutex" || s == "sync.Once"
 }
 
 // lockHeld evaluates held(m): the ghost lock bit of the mutex at that address.
@@ -888,6 +994,10 @@ func (e *specEnv) evalModTargets(ex SExpr) []modTarget {
 				a := e.muAddrOf(ex.Args[0])
 				x.h.schema[lockRegionName] = []regionSchema{{lockRegionName, 1, SBool}}
 				return []modTarget{{prefix: lockRegionName, match: func(ref, idx *Term) *Term { return c.Eq(ref, a) }}}
+			case "once":
+				a := e.muAddrOf(ex.Args[0])
+				x.h.schema[onceRegionName] = []regionSchema{{onceRegionName, 1, SBool}}
+				return []modTarget{{prefix: onceRegionName, match: func(ref, idx *Term) *Term { return c.Eq(ref, a) }}}
 			case "nothing":
 				return nil
 			case "when":
